@@ -107,8 +107,26 @@ CPost ==
   /\ (e.ok /\ e.a \notin SeqToSet(final) => Report("VIOL", e, [sig |-> "concurrent-post-lost", a |-> e.a, final |-> final]))
   /\ UNCHANGED <<bvars, final, nclients>>
 
+(* a post while the board file cannot be saved (the temporary file's name is occupied), then a read by another client:
+   the property is silent about what becomes of that post (the code keeps it in memory), but the reader is still a
+   client asking for the board - it receives a complete current text, with or without that post; a post that WAS
+   acknowledged is on disk. *)
+FaultPostEv ==
+  LET e == Log[l]
+      withA == <<e.a>> \o text
+      seen == IF e.readOk /\ e.after = withA THEN withA ELSE text
+  IN
+  /\ e.op = "faultpost"
+  /\ (~e.readOk => Report("VIOL", e, [sig |-> "board-request-unanswered-after-failed-save", post |-> e.a]))
+  /\ (e.readOk /\ ~(e.exact /\ e.after \in {text, withA}) =>
+        Report("VIOL", e, [sig |-> "read-not-a-current-text-after-failed-save", posts |-> e.after, text |-> text, exact |-> e.exact]))
+  /\ (e.ok /\ e.diskAfter # withA => Report("VIOL", e, [sig |-> "acknowledged-post-not-on-disk", disk |-> e.diskAfter, text |-> withA]))
+  /\ text' = seen /\ versions' = Append(versions, seen)
+  /\ disk' = IF e.diskAfter = withA THEN withA ELSE disk
+  /\ UNCHANGED <<cursor, st, got, from, lockedBy, final, nclients>>
+
 Next == /\ l <= Len(Log)
-        /\ (World \/ Call \/ ReplyEv \/ AckedEv \/ EndEv \/ PostEv \/ ReadEv \/ ConcStart \/ CRead \/ CPost)
+        /\ (World \/ Call \/ ReplyEv \/ AckedEv \/ EndEv \/ PostEv \/ ReadEv \/ ConcStart \/ CRead \/ CPost \/ FaultPostEv)
         /\ l' = l + 1
         /\ TLCSet(1, l')
 
